@@ -52,6 +52,8 @@ REV=[
  ("emit the rules of map item types",["C12"],"R-FLOW/items"),
  ("print a type name for fields that refer",["C05"],"R-FLOW/refname"),
  ("emit array item-count rules",["C04","C12"],"R-SYM/S7"),
+ ("bound the exponent of decimal literals",["C06"],"R-TERM/T-cost"),
+ ("merge format edits that share a source line",["C19"],"R-CONST/disjoint"),
 ]
 n=0
 for sub,props,expect in REV:
